@@ -390,7 +390,7 @@ class AsCompleted(_CHarness):
                   {'failure': kind, 'info': _info(info)}))
       return out
     faults = [c for c in self.after['calls'] if c[2] != 'ok']
-    fault = faults[0][2] if faults else 'none'
+    fault = faults[0][2].split(':')[0] if faults else 'none'
     killed = {c[0] for c in faults if c[2] == 'kill'}
     usable = p['W'] - len(killed)
     expected = [('done', i) for i in range(p['T']) if i != p['bad']]
@@ -880,6 +880,22 @@ class RemoteEval(_CHarness):
           self.rows.append((f'RemoteIteratorQueue({n})',
                             ('ok', ([('g', i) for i in range(min(n, 2))], 'QR')),
                             ('ok', (got, end))))
+      elif part == 'shutdown' and p['how'] == 'mid-call':
+        # the shutdown request arrives while call `at` is being served
+        calls = [lf.trace(fx.add)(1, 2), lf.trace(fx.mul)(2, 3),
+                 lf.trace(fx.add)(3, 4)]
+        mid = (lf.trace(fx.shutdown_then_raise)('w0') if p['at'] % 2 == 0 else
+               lf.trace(fx.shutdown_then_return)('w0', 42))
+        calls.insert(p['at'] // 2, mid)
+        for i, expr in enumerate(calls):
+          if expr is mid:
+            want = (('exc', 'TimeoutError', None) if p['at'] % 2 == 0
+                    else ('ok', 42))
+            self.rows.append((f'call{i}@mid-call', want, remote(client, expr)))
+            self.mid_index = i
+          else:
+            self.rows.append((f'call{i}@mid-call', local(expr),
+                              remote(client, expr)))
       elif part == 'shutdown':
         calls = [lf.trace(fx.add)(1, 2), lf.trace(fx.mul)(2, 3),
                  lf.trace(fx.raiser)('late')]
@@ -928,6 +944,26 @@ class RemoteEval(_CHarness):
                {'failure': kind, 'info': _info(info), 'rows': repr(self.rows)[-600:]})]
     out = []
     for name, loc, rem in self.rows:
+      if p['part'] == 'shutdown' and p['how'] == 'mid-call':
+        i = int(name[4])
+        mid = getattr(self, 'mid_index', 0)
+        if i < mid:
+          ok = self._agree(loc, rem)
+        elif i == mid:
+          # a call that fails while the server is shutting down is answered
+          # with the retriable time-out error; one that succeeds keeps its value
+          ok = (rem[0] == 'exc' and rem[1] == 'TimeoutError') if loc[0] == 'exc' \
+              else (self._agree(loc, rem) or (
+                  rem[0] == 'exc' and rem[1] == 'TimeoutError'))
+        else:
+          ok = self._agree(loc, rem) or (
+              rem[0] == 'exc' and rem[1] in ('TimeoutError', 'RuntimeError',
+                                             'StatusError'))
+        if not ok:
+          what = 'failing-call' if loc[0] == 'exc' and i == mid else 'call'
+          out.append((f'C14:shutdown:mid-call:{what}-not-answered-with-timeout-or-value',
+                      {'call': name, 'expected': repr(loc), 'remote': repr(rem)}))
+        continue
       if p['part'] == 'shutdown':
         at = p['at']
         i = int(name[4])
@@ -988,10 +1024,11 @@ class ShardedPipelines(_CHarness):
   max_clock = 2500.0
 
   def __init__(self, W=1, S=1, total=4, batch=2, ibs=1, fuse=True, menu=(),
-               retry=None, agg=True, timeout=60, mode='preempt', push=True):
+               retry=None, agg=True, timeout=60, mode='preempt', push=True,
+               slow=0):
     self.params = dict(W=W, S=S, total=total, batch=batch, ibs=ibs, fuse=fuse,
                        menu=list(menu), retry=retry, agg=agg, timeout=timeout,
-                       mode=mode, push=push)
+                       mode=mode, push=push, slow=slow)
     self.mode = mode
     _m()
 
@@ -1016,8 +1053,11 @@ class ShardedPipelines(_CHarness):
           [f'w{i}' for i in range(p['W'])], call_timeout=p['timeout'],
           iterate_batch_size=p['ibs'])
       pool.wait_until_alive(minimum_num_workers=p['W'])
-      fake_courier.NET.menu = {'next_batch_from_generator': list(p['menu']),
-                               'init_generator': list(p['menu'])}
+      per_call = [k for k in p['menu'] if k != fake_courier.KILL_OTHER]
+      fake_courier.NET.menu = {'next_batch_from_generator': per_call,
+                               'init_generator': per_call}
+      if fake_courier.KILL_OTHER in p['menu']:
+        fake_courier.NET.menu['*'] = [fake_courier.KILL_OTHER]
       rq = vqueue.SimpleQueue() if p['agg'] else None
       kw = {}
       if p['retry'] is not None:
@@ -1028,6 +1068,11 @@ class ShardedPipelines(_CHarness):
             num_shards=p['S'], fuse=p['fuse'], agg=p['agg'], result_queue=rq,
             **kw):
           self.batches.append(b)
+          if p['slow'] and len(self.batches) == 1:
+            # a slow consumer: the workers run ahead (and may finish and die)
+            # while the caller holds the first batch
+            from vmc import vtime
+            vtime.sleep(p['slow'])
         self.end = ('ok',)
       except sched.Abort:
         raise
@@ -1045,7 +1090,8 @@ class ShardedPipelines(_CHarness):
       self.after = dict(
           acquired=[w.address for w in pool.acquired_workers],
           locked=[w.address for w in pool.all_workers if w.is_locked()],
-          calls=[c for c in fake_courier.NET.calls if c[1] != 'heartbeat'])
+          calls=[c for c in fake_courier.NET.calls
+                 if c[1] != 'heartbeat' or c[2] != 'ok'])
       for s in servers + ([host] if host else []):
         if s.has_started:
           s.stop()
@@ -1074,8 +1120,9 @@ class ShardedPipelines(_CHarness):
     out = []
     if res.failure:
       kind, info = res.failure
-      calls = [c for c in fake_courier.NET.calls if c[1] != 'heartbeat']
-      killed = {c[0] for c in calls if c[2] == 'kill'}
+      calls = [c for c in fake_courier.NET.calls
+               if c[1] != 'heartbeat' or c[2] != 'ok']
+      killed = _killed(calls)
       if kind == 'horizon' and len(killed) >= p['W']:
         # no worker stays usable: outside the property's precondition (the
         # driver polls for ever; the virtual-time horizon ends the run)
@@ -1086,12 +1133,12 @@ class ShardedPipelines(_CHarness):
                {'failure': kind, 'info': _info(info), 'calls': calls})]
     faults = [c for c in self.after['calls'] if c[2] != 'ok']
     prop = 'C06' if faults or p['menu'] else 'C16'
-    fault = faults[0][2] if faults else 'none'
+    fault = faults[0][2].split(':')[0] if faults else 'none'
     ref_batches, ref_agg = self.reference()
     norm = lambda b: repr(b)
     want = collections.Counter(map(norm, ref_batches))
     got = collections.Counter(map(norm, [b for b in self.batches]))
-    killed = {c[0] for c in faults if c[2] == 'kill'}
+    killed = _killed(faults)
     usable = p['W'] - len(killed)
     if self.end == ('ok',):
       if set(got) - set(want):
@@ -1130,6 +1177,16 @@ class ShardedPipelines(_CHarness):
       out.append((f'{prop}:sharded:workers-left-acquired:{cfg}',
                   {'after': self.after}))
     return out
+
+
+def _killed(calls):
+  out = set()
+  for c in calls:
+    if c[2] == 'kill':
+      out.add(c[0])
+    elif c[2].startswith('kill-other:'):
+      out.add(c[2].split(':', 1)[1])
+  return out
 
 
 def _agg_equal(a, b):
